@@ -27,10 +27,12 @@ def is_fresh_expr(v, fresh, params):
     return False
 
 
-def param_mutations(fnode, module, mutating_functions=("swap_points",)):
-    """[(node, param, kind)] for in-place changes of caller-owned parameter objects."""
+def param_mutations(fnode, module, mutating_functions=("swap_points",), extra_owned=()):
+    """[(node, param, kind)] for in-place changes of caller-owned parameter objects.
+    extra_owned: further names whose objects are not the function's own (e.g. "self" when the
+    question is whether a method is pure, or the free variables of a nested function)."""
     a = fnode.args
-    params = [p.arg for p in a.posonlyargs + a.args + a.kwonlyargs if p.arg not in ("self", "cls")]
+    params = [p.arg for p in a.posonlyargs + a.args + a.kwonlyargs if p.arg not in ("self", "cls")] + list(extra_owned)
     if a.vararg:
         params.append(a.vararg.arg)
     owned0 = frozenset(params)
